@@ -221,6 +221,7 @@ pub fn line_text(l: &J) -> String {
         "garbage" => "###".into(),
         "empty" => String::new(),
         "near" => "k=a v1".into(),
+        "bigv" => "k= v=99999999999999999999".into(),
         "longpre" => format!("{}k=a v=1", "#".repeat(l["n"].as_u64().unwrap() as usize)),
         o => panic!("line kind {}", o)
     }
